@@ -158,6 +158,10 @@ def plan(tier, rng, sl, nslices, stats):
     for i in range(cfg["random"]):
         if i % 8 == 0:
             yield special(rng)
+        elif i % 400 == 39:
+            yield gcfg.long_body_case(rng)
+        elif i % 400 == 79 and sl == 0:
+            yield gcfg.wide_case(rng)
         elif i % 40 == 39:
             yield gcfg.large_case(rng)
         else:
@@ -215,4 +219,15 @@ def run_case(c, stats):
         call(e2.to_normal_form)
     g2 = gcfg.build(c)
     call(g2.to_normal_form)          # fresh object: normal form without the earlier analyses cached
+    if c.get("longbody") and nf is not None:
+        # a grammar that already holds ten or more helper variables gets new long productions and is normalised again
+        from pyformlang.cfg import CFG, Production, Terminal
+        s_ = g.start_symbol
+        t0_, t1_, t2_ = (Terminal(gcfg.tval(c, j)) for j in range(3))
+        for extra in ([t0_, s_, t1_, t2_], [t1_, t1_, s_], [s_, t2_, t0_, t0_, t1_]):
+            ok4, g3 = call(CFG, start_symbol=s_, productions=set(nf.productions) | {Production(s_, extra)})
+            if ok4:
+                ok5, nf3 = call(g3.to_normal_form)
+                if ok5:
+                    call(nf3.to_normal_form)
     return nt
